@@ -20,7 +20,7 @@ RULE = ("spec: TLC exhaustive over every DAG/outcome/mode of the listed configs 
         "API trace against JobSysTrace.tla and as a hook trace against SchedTrace.tla")
 
 
-def generic(prop, quick_cfgs, thorough_cfgs, qruns=600, truns=6000, qscripts=300, tscripts=3000, sim_kw=None, extra=None):
+def generic(prop, quick_cfgs, thorough_cfgs, qruns=600, truns=4000, qscripts=300, tscripts=2000, sim_kw=None, extra=None):
     def check(c):
         S.tlc_spec(c, quick_cfgs if c.quick else thorough_cfgs)
         if prop == "C19":
@@ -31,12 +31,12 @@ def generic(prop, quick_cfgs, thorough_cfgs, qruns=600, truns=6000, qscripts=300
             batches.append((ex[0], ex[1](c)) + tuple(ex[2:]))
         if not c.quick:
             batches.append(("random-big", rnd(c, truns // 6, maxj=30, maxn=8)))
-        S.conformance(c, batches, hook_limit=150 if c.quick else 1500)
+        S.conformance(c, batches, hook_limit=150 if c.quick else 800)
         # the same property one level up: freshly generated Flow / Parallel code (monitor DirSys.tla)
         if c.quick:
             G.pipeline(c, 80, 60, 4, seed_off=50)
         else:
-            for r in range(3):
+            for r in range(2):
                 G.pipeline(c, 300, 200, 10, seed_off=50 + r)
         c.assumptions += ["the hooks report what the scheduler does (add-only one-line calls, tag verif)",
                           "stamps are a linearization of the API events (mutex-ordered log)",
